@@ -2,6 +2,9 @@ SPECIFICATION Spec
 CONSTANTS
   Thorough = FALSE
   Dev_h41 = TRUE
+  Dev_gmt = TRUE
+  Dev_y10k = TRUE
   Emit = FALSE
-INVARIANTS CalendarOk RoundTrip FmtRefines ParseRefines FunctionForm Terminates
+  Tiny = FALSE
+INVARIANTS CalendarOk RoundTrip FmtRefines FmtRefinesDone ParseRefines FunctionForm Terminates
 CHECK_DEADLOCK FALSE
